@@ -81,7 +81,7 @@ def impl_main(payload):
     rng = random.Random(payload["seed"])
     eqs = ["C_0*X_0 + C_1", "C_0*X_0*X_0 + C_1", "sin(C_0*X_0) + C_1", "X_0 + 2.0", "C_0*exp(C_1*X_0)/(1.0 + exp(C_1*X_0))",
            "C_0 + C_1*X_0 + C_2*X_0*X_0 + C_3*X_0*X_0*X_0", "X_0 + 0*2.5 (simplified: no constants, requests optimisation)",
-           "X_0 + X_0 (constant mutated away before the first evaluation)"]
+           "X_0 + X_0 (constant mutated away before the first evaluation)", "C_0/(X_0 - X_0) + C_1"]
     methods = ["lm", "BFGS", "Nelder-Mead", "Powell", "CG", "L-BFGS-B", "TNC", "SLSQP"]
     try:
         for c in payload["cases"]:
@@ -99,6 +99,9 @@ def impl_main(payload):
                 if c["eq"] == 6:
                     # constants that vanish under simplification: the equation requests optimisation and holds none
                     g = AGraph(use_simplification=True, equation="X_0 + 0*2.5")
+                elif c["eq"] == 8:
+                    # the residual is non-finite whatever the constants: some methods (BFGS, SLSQP) walk to NaN constants
+                    g = AGraph(equation="C_0/(X_0 - X_0) + C_1")
                 elif c["eq"] == 7:
                     # the only constant-using command overwritten before the first evaluation (as a mutation does)
                     g = AGraph(equation="X_0 + 1.5")
@@ -141,7 +144,7 @@ def impl_main(payload):
                                 % (e, eqs[c["eq"]], c["method"], L, needs))
                 fin = tuple(float(q) for q in g.get_local_optimization_params())
                 # independent base fitness of the constants now held
-                g2 = g.copy() if c["eq"] >= 6 else AGraph(equation=eqs[c["eq"]])
+                g2 = g.copy() if c["eq"] in (6, 7) else AGraph(equation=eqs[c["eq"]])
                 g2.set_local_optimization_params(fin)
                 indep = float(ExplicitRegression(ExplicitTrainingData(x, y), metric=metric)(g2))
 
@@ -174,7 +177,7 @@ def impl_main(payload):
                         viol.append("constants changed although optimisation was not requested")
                 else:
                     last_ok = [cl for cl in rec["calls"] if cl[0]]
-                    if not raised and last_ok and tuple(last_ok[-1][2]) != fin:
+                    if not raised and last_ok and [float(v).hex() for v in last_ok[-1][2]] != [float(v).hex() for v in fin]:
                         viol.append("constants held afterwards %r are not the optimizer's result %r" % (fin, tuple(last_ok[-1][2])))
                 if opt.options["method"] != before_method and not raised:
                     viol.append("method option left at %r after the fallback (was %r)" % (opt.options["method"], before_method))
@@ -188,10 +191,16 @@ def impl_main(payload):
                 g = AGraph(equation="C_0*X_0 + C_1")
                 reg = EquationRegressor(g, fit_retries=len(seq) - 1)
                 it = iter(seq)
+                known = {}
 
-                def scripted(eq, _it=it):
+                def scripted(eq, _it=it, _known=known):
+                    # like LocalOptFitnessFunction: an equation that does not ask for optimisation is only evaluated
+                    if not eq.needs_local_optimization():
+                        f = _known[tuple(int(v) for v in eq.get_local_optimization_params())]
+                        return float("nan") if f is None else float(f)
                     f, cs = next(_it)
                     eq.set_local_optimization_params(tuple(float(v) for v in cs))
+                    _known[tuple(cs)] = f
                     return float("nan") if f is None else float(f)
                 reg._get_local_opt = lambda X, y: scripted
                 reg.fit(np.zeros((2, 1)), np.zeros((2, 1)))
@@ -205,6 +214,28 @@ def impl_main(payload):
                 if not any((s[0] is None and math.isnan(f)) or (s[0] is not None and s[0] == f) for s in match):
                     viol.append("reported fitness %r does not belong to the constants returned %r" % (f, cs))
                 results.append(dict(case=dict(kind=1, fits=seq), out=out, viol=viol, meta={}))
+                # fit the same equation AGAIN: the constants it holds are the incumbent, evaluated first and never given up for worse
+                seq2 = c.get("fits2")
+                if seq2 and not viol:
+                    inc_f, inc_cs = (None if math.isnan(f) else int(f)), list(cs)
+                    known[tuple(inc_cs)] = inc_f
+                    it2 = iter(seq2)
+                    reg.fit_retries = len(seq2)
+                    reg._get_local_opt = lambda X, y: (lambda eq: scripted(eq, it2, known))
+                    viol2 = []
+                    try:
+                        reg.fit(np.zeros((2, 1)), np.zeros((2, 1)))
+                    except StopIteration:
+                        viol2.append("the second fit made more optimisation attempts than fit_retries asks for")
+                    f2 = g.fitness
+                    cs2 = [int(v) for v in g.get_local_optimization_params()]
+                    out2 = ([0] if math.isnan(f2) else [1, int(f2)]) + cs2
+                    if inc_f is not None and (math.isnan(f2) or f2 > inc_f):
+                        viol2.append("fitting an already fitted equation again returned fitness %r, worse than the %r it had (constants %r -> %r)"
+                                     % (f2, inc_f, inc_cs, cs2))
+                    if next(it2, None) is not None:
+                        viol2.append("the second fit made fewer optimisation attempts than fit_retries asks for")
+                    results.append(dict(case=dict(kind=1, fits=[[inc_f, inc_cs]] + seq2), out=out2, viol=viol2, meta=dict(refit=True)))
         # ---- sequences: an optimised equation loses a constant through a stack edit and goes through the wrapper again.
         # The number of stored constants must follow the expression; the value is the base fitness of the constants held.
         from bingo.symbolic_regression.agraph.simplification_backend import simplification_backend as sbk
@@ -256,11 +287,15 @@ def check(rep, proof):
     for i in range(16 if rep.tier == "quick" else 160):     # zero constants but a pending optimisation request, every method
         cases.append(dict(kind=0, seed=rng.randrange(10 ** 6), eq=6 + i % 2, method=methods[(i // 2) % 8],
                           metric=rng.choice(["mae", "mse", "rmse"]), needs=True, points=8, stale=0))
+    for i in range(8 if rep.tier == "quick" else 80):       # residual non-finite for every choice of the constants, every method
+        cases.append(dict(kind=0, seed=rng.randrange(10 ** 6), eq=8, method=methods[i % 8],
+                          metric=rng.choice(["mae", "mse", "rmse"]), needs=True, points=8, stale=0))
     for i in range(6 if rep.tier == "quick" else 60):      # more constants than data points: lm raises TypeError -> BFGS fallback
         cases.append(dict(kind=0, seed=rng.randrange(10 ** 6), eq=5, method="lm", metric="mse", needs=True, points=3))
     for i in range(400 if rep.tier == "quick" else 20000):
         k = rng.randint(1, 7)
-        cases.append(dict(kind=1, fits=[[rng.choice([None, None, 1, 2, 3, 3, 5, 8]), [j, rng.randint(0, 9)]] for j in range(k)]))
+        cases.append(dict(kind=1, fits=[[rng.choice([None, None, 1, 2, 3, 3, 5, 8]), [j, rng.randint(0, 9)]] for j in range(k)],
+                          fits2=[[rng.choice([None, 1, 2, 3, 4, 5, 8, 9]), [10 + j, rng.randint(0, 9)]] for j in range(rng.randint(1, 3))]))
     rc, res, out, wall = vlib.run_impl("c06", dict(cases=cases, seed=rep.seed, shrink_methods=methods if rep.tier == "quick" else methods * 6),
                                        timeout=3400)
     if res is None:
